@@ -79,6 +79,68 @@ func checkC15(p *Prog, r *Report) {
 	reachesFn := func(from *ssa.Function, target *ssa.Function) bool {
 		return from == target || reachFrom(cg, []*ssa.Function{from}, nil)[target]
 	}
+	// R15.8: the flag tells the truth
+	r.rule("R15.8", "reloadActive is truthful: in the function that sends 'reload in N' every path from that send to a return raises the flag (the flag is not raised only for one of the device's dialogue variants), and in the function that sends 'reload cancel' that send lies on every path (no early return in front of it). Otherwise a reload armed on the device is not cancelled: the run reports success and the router reboots.")
+	{
+		isSendOf := func(frag string) func(ssa.Instruction) bool {
+			return func(in ssa.Instruction) bool {
+				ci, ok := in.(ssa.CallInstruction)
+				if !ok {
+					return false
+				}
+				for _, a := range ci.Common().Args {
+					for _, rt := range valueRoots(a) {
+						if s, ok := constString(rt); ok && strings.Contains(s, frag) {
+							return true
+						}
+						if c, ok := rt.(*ssa.Call); ok && c.Common().StaticCallee() != nil && shortName(c.Common().StaticCallee()) == "fmt.Sprintf" {
+							if s, ok := constString(c.Common().Args[0]); ok && strings.Contains(s, frag) {
+								return true
+							}
+						}
+					}
+				}
+				return false
+			}
+		}
+		isFlagStore := func(val bool) func(ssa.Instruction) bool {
+			return func(in ssa.Instruction) bool {
+				st, ok := in.(*ssa.Store)
+				if !ok {
+					return false
+				}
+				fa, ok := st.Addr.(*ssa.FieldAddr)
+				if !ok || !strings.HasSuffix(fieldName(fa), "."+fld.Name()) {
+					return false
+				}
+				bv, isC := constBool(st.Val)
+				return isC && bv == val
+			}
+		}
+		var sendArm ssa.Instruction
+		for _, b := range arm.Blocks {
+			for _, in := range b.Instrs {
+				if sendArm == nil && isSendOf("reload in")(in) {
+					sendArm = in
+				}
+			}
+		}
+		if sendArm == nil {
+			r.fail("R15.8", "flag-raised-on-every-path|"+shortName(arm), p.pos(arm.Pos()), "send of 'reload in' not found", "")
+		} else {
+			bad := mustPassBeforeReturn(p, sendArm, isFlagStore(true), nil)
+			r.add("R15.8", "flag-raised-on-every-path|"+shortName(arm), p.ipos(sendArm), "after 'reload in N' was sent every path to the return stores reloadActive = true", bad == "",
+				"a reload can be scheduled on the device while the flag stays false (return at "+bad+"): it is neither cancelled nor re-armed, banners are not stripped")
+		}
+		// cancel: the send is reached from the entry on every path
+		entry := cancel.Blocks[0].Instrs[0]
+		bad := mustPassBeforeReturn(p, entry, isSendOf("reload cancel"), nil)
+		if isSendOf("reload cancel")(entry) {
+			bad = ""
+		}
+		r.add("R15.8", "cancel-unconditional|"+shortName(cancel), p.pos(cancel.Pos()), "'reload cancel' is sent on every path through the cancel function", bad == "",
+			"the cancel function can return without sending 'reload cancel' (return at "+bad+")")
+	}
 	// change sender
 	sender := p.Fn("(*ios.State).cmd")
 	if sender == nil {
